@@ -24,6 +24,7 @@ Contents
 * `weightEnum`, `klLossL2`     — models of `quantum_weight_enumerator`, `knill_laflamme_loss`
 -/
 import NumqiModel.Scalar
+import NumqiModel.Pauli
 
 namespace Numqi.Qec
 
@@ -531,6 +532,183 @@ def klLossL2 (E K : Nat) (M : Nat → Nat → Nat → QI) : Rat :=
 /-- for `kind='L1'` the loss is `Σ √t` over these terms (the square roots are taken outside the model) -/
 def klLossL1Radicands (E K : Nat) (M : Nat → Nat → Nat → QI) : List Rat :=
   klOffTerms E K M ++ klDiagTerms E K M
+
+/-! ### `parse_simple_pauli` (`_qecc.py:24-45`)
+
+Two input forms: a full word over `XYZI` (no digit anywhere) and the indexed form `X0Y2X13` (regex
+`([XYZI][0-9]+)+` matching the whole string).  Result: the list `tmp0` of (symbol, qubit) pairs, here as
+(qubit, symbol) with I=0 X=1 Y=2 Z=3.  In the full form the `I` letters are dropped, in the indexed form they are
+kept (the circuit builder skips them; the `tag_circuit=False` table lookup raises `KeyError` on them). -/
+
+def pauliSym? (c : Char) : Option Nat :=
+  if c == 'I' then some 0 else if c == 'X' then some 1 else if c == 'Y' then some 2 else if c == 'Z' then some 3 else none
+
+def isDigitC (c : Char) : Bool := '0' ≤ c && c ≤ '9'
+
+def digitVal (c : Char) : Nat := c.toNat - '0'.toNat
+
+/-- `int(digits)` -/
+def natOfDigits (ds : List Char) : Nat := ds.foldl (fun acc c => acc * 10 + digitVal c) 0
+
+/-- split off the maximal prefix of digits -/
+def spanDigits : List Char → List Char × List Char
+  | [] => ([], [])
+  | c :: cs => if isDigitC c then let r := spanDigits cs; (c :: r.1, r.2) else ([], c :: cs)
+
+/-- the indexed form: tokens `[XYZI][0-9]+` covering the whole string (`fuel` ≥ length) -/
+def parseIndexedAux : Nat → List Char → Option (List (Nat × Nat))
+  | _, [] => some []
+  | 0, _ :: _ => none
+  | fuel + 1, c :: cs =>
+      match pauliSym? c with
+      | none => none
+      | some s =>
+          let r := spanDigits cs
+          if r.1.isEmpty then none else
+          match parseIndexedAux fuel r.2 with
+          | some rest => some ((natOfDigits r.1, s) :: rest)
+          | none => none
+
+/-- the full form: every character in `XYZI`; `I`s dropped, qubit = position -/
+def parseFullAux : Nat → List Char → Option (List (Nat × Nat))
+  | _, [] => some []
+  | q, c :: cs =>
+      match pauliSym? c, parseFullAux (q + 1) cs with
+      | some s, some rest => some (if s == 0 then rest else (q, s) :: rest)
+      | _, _ => none
+
+/-- `tmp0` of `parse_simple_pauli(str0)`; `none` = `AssertionError`.  The indexed form needs at least one token
+(`re.match('(…)+')`); a string without digits is the full form (the empty string gives the empty list). -/
+def parseSimplePauli (str0 : List Char) : Option (List (Nat × Nat)) :=
+  if str0.any isDigitC then
+    match parseIndexedAux str0.length str0 with
+    | some [] => none
+    | r => r
+  else parseFullAux 0 str0
+
+/-- what the circuit builder keeps (`tag_circuit=True`): the `I` tokens are skipped -/
+def pauliTokensCircuit (l : List (Nat × Nat)) : List (Nat × Nat) := l.filter fun qs => qs.2 != 0
+
+/-- `tag_circuit=False`: `none` = `KeyError: 'I'` when an `I` token survives (indexed form only) -/
+def pauliTokensTable (l : List (Nat × Nat)) : Option (List (Nat × Nat)) :=
+  if l.any (fun qs => qs.2 == 0) then none else some l
+
+/-! ### `make_error_list(tag_full=True)` (`_internal.py:21-30`)
+
+For each generated error the Kronecker product of `num_qubit` 2×2 matrices (identity except at the listed qubits):
+entry `(r, c)` as an exponent of `i` (`none` = 0), through C08's model of `sign · kron(factors)` applied to the
+error's string with sign `+1`. -/
+
+/-- the dense matrix of the string `syms` (sign `+1`), entry `(b', b)` for basis states given as bit vectors -/
+def denseEntry (n : Nat) (syms : List Nat) (b' b : Bits n) : Option Nat :=
+  Pauli.fullMatrixExp (Pauli.ofStr n syms 0) b' b
+
+/-- the strings of `make_error_list(n, d, tag_full=True)`, in order; entry `(b', b)` of the `j`-th matrix is
+`denseEntry n (errorListFull n d)[j] b' b` -/
+def errorListFull (n d : Nat) : List (List Nat) := (errorList n d).map (sparseToSyms n)
+
+/-! ### `Circuit.shift_qubit_index_` and `VarQEC` (`sim/circuit.py:468-486`, `_varqec.py:80-106`) -/
+
+/-- `shift_qubit_index_(delta)`, `delta ≥ 0`: every qubit index of a unitary / control entry moves up by `delta` -/
+def Gate.shift (k : Nat) : Gate → Gate
+  | .h q => .h (q + k) | .x q => .x (q + k) | .y q => .y (q + k) | .z q => .z (q + k) | .s q => .s (q + k)
+  | .cx c t => .cx (c + k) (t + k) | .cy c t => .cy (c + k) (t + k) | .cz c t => .cz (c + k) (t + k)
+  | .unknown => .unknown
+
+/-- the same with a signed `delta`: indices as integers (the implementation stores negative indices as they come) -/
+def Gate.shiftInt (k : Int) : Gate → String × List Int
+  | .h q => ("h", [q + k]) | .x q => ("x", [q + k]) | .y q => ("y", [q + k]) | .z q => ("z", [q + k]) | .s q => ("s", [q + k])
+  | .cx c t => ("cx", [c + k, t + k]) | .cy c t => ("cy", [c + k, t + k]) | .cz c t => ("cz", [c + k, t + k])
+  | .unknown => ("unknown", [])
+
+/-- `⌈log2 K⌉` (`hf_num_state_to_num_qubit(K, kind='ceil')`) -/
+def ceilLog2 (K : Nat) : Nat := if K ≤ 1 then 0 else Nat.log2 (K - 1) + 1
+
+section VarQEC
+variable {α : Type} [Add α] [Sub α] [Neg α] [Mul α] [Zero α] [One α]
+
+/-- `VarQEC._run_circuit`: the `(2^kl, 2^n)` array with `q0[a, a] = 1` for `a < K`, flattened; the logical register
+is qubits `0..kl-1` (low bits of the position), the encoder register qubits `kl..kl+n-1`. -/
+def varqecInit (n kl K : Nat) : Nat → α := fun pos =>
+  if (List.range K).any (fun a => pos == posOfIdx kl a + 2 ^ kl * posOfIdx n a) then 1 else 0
+
+/-- row `a` of `VarQEC.get_code()`: the shifted encoder applied to the flattened array, sliced at logical value `a` -/
+def varqecCode (I : α) (c : Code) (K a : Nat) : Nat → α := fun hi =>
+  let kl := ceilLog2 K
+  run I (c.encode.map (Gate.shift kl)) (varqecInit c.n kl K) (posOfIdx kl a + 2 ^ kl * hi)
+
+end VarQEC
+
+/-! ### `parse_str_qecc` (`_qecc.py:6-21`), `make_error_list(op_list=…)`, `degeneracy` (`_internal.py:81-96`) -/
+
+/-- split at the first occurrence of `c` (`str.split(c, 1)`): `none` if `c` does not occur -/
+def splitFirst (c : Char) : List Char → Option (List Char × List Char)
+  | [] => none
+  | x :: xs => if x == c then some ([], xs) else
+      match splitFirst c xs with
+      | some r => some (x :: r.1, r.2)
+      | none => none
+
+/-- a non-empty string of ASCII digits as a natural number (the only form of `int(…)` modelled) -/
+def natOfString? (l : List Char) : Option Nat :=
+  if l.isEmpty || !l.all isDigitC then none else some (natOfDigits l)
+
+/-- `digits[.digits]` as an exact rational `(numerator, denominator)` (the only form of `float(…)` modelled) -/
+def decimalOfString? (l : List Char) : Option (Nat × Nat) :=
+  match splitFirst '.' l with
+  | none => (natOfString? l).map fun a => (a, 1)
+  | some (ip, fp) =>
+      if ip.isEmpty || fp.isEmpty || !ip.all isDigitC || !fp.all isDigitC then none
+      else some (natOfDigits (ip ++ fp), 10 ^ fp.length)
+
+/-- `parse_str_qecc`: `((n,K,d))` ↦ `(n, K, none, d)`, `((n,K,de(w)=d))` ↦ `(n, K, some w, d)`; `none` = rejected
+(`AssertionError` / `ValueError` / `IndexError` of the implementation, not distinguished) -/
+def parseStrQecc (s : List Char) : Option (Nat × Nat × Option (Nat × Nat) × Nat) :=
+  if s.length < 4 || s.take 2 != ['(', '('] || (s.drop (s.length - 2)) != [')', ')'] then none else
+  let body := (s.drop 2).take (s.length - 4)
+  match splitFirst ',' body with
+  | none => none
+  | some (a, rest) =>
+    match splitFirst ',' rest with
+    | none => none
+    | some (b, c) =>
+      match natOfString? a, natOfString? b with
+      | some n, some K =>
+        if c.contains '=' then
+          match splitFirst '(' c with
+          | none => none
+          | some (_, afterParen) =>
+            match splitFirst ')' afterParen, splitFirst '=' c with
+            | some (w, _), some (_, dstr) =>
+              match decimalOfString? w, natOfString? dstr with
+              | some wq, some d => some (n, K, some wq, d)
+              | _, _ => none
+            | _, _ => none
+        else (natOfString? c).map fun d => (n, K, none, d)
+      | _, _ => none
+
+/-- `itertools.product(op_list, repeat=w)` for an arbitrary list of symbols -/
+def prodsOf (ops : List Nat) : Nat → List (List Nat)
+  | 0 => [[]]
+  | w + 1 => ops.flatMap fun o => (prodsOf ops w).map (o :: ·)
+
+/-- `make_error_list(n, d, op_list=ops)` -/
+def errorListOps (n d : Nat) (ops : List Nat) : List (List (Nat × Nat)) :=
+  (List.range (d - 1)).flatMap fun w =>
+    (combs (List.range n) (w + 1)).flatMap fun qs =>
+      (prodsOf ops (w + 1)).map fun gs => qs.zip gs
+
+section Degeneracy
+variable {α : Type} [Add α] [Sub α] [Neg α] [Mul α] [Zero α] [One α] [Conj α]
+
+/-- the matrix handed to `eigvalsh` by `degeneracy(code_i)`: `mat[i,j] = ⟨E_i c|E_j c⟩` over the weight-1 errors of
+`make_error_list(n, 2)` followed by the identity -/
+def degeneracyGram (I : α) (n : Nat) (v : Nat → α) : List (List α) :=
+  let errs := (errorList n 2).map MP.ofSparse ++ [MP.one]
+  let imgs := errs.map fun p => vecL n (pauliAct I p v)
+  imgs.map fun x => imgs.map fun y => dotL x y
+
+end Degeneracy
 
 /-- the tabulated model code words as functions (driver) -/
 def codewordFns (c : Code) : List (Nat → GInt) :=
